@@ -254,3 +254,13 @@ Proof.
     + intros Hin. apply has_spec in Hin. congruence.
     + intros Hin. unfold attr_escape in Hin. apply in_flat_map in Hin as (c0 & _ & Hc0). apply attr_char_safe in Hc0. lia.
 Qed.
+
+(* distinct identifiers / texts never collide in the published file *)
+Theorem quoteattr_injective a b : quoteattr a = quoteattr b -> a = b.
+Proof. intros E. pose proof (unquote_quoteattr a) as Ra. rewrite E, unquote_quoteattr in Ra. congruence. Qed.
+
+Theorem escape_injective a b : escape a = escape b -> a = b.
+Proof.
+  intros E. pose proof (unescape_escape a (length (escape a)) (le_n _)) as Ra.
+  pose proof (unescape_escape b (length (escape b)) (le_n _)) as Rb. rewrite E in Ra. congruence.
+Qed.
